@@ -2,6 +2,8 @@
 
 package yqlib
 
+import "github.com/alecthomas/participle/v2/lexer"
+
 // Verification hooks (build tag "verif"). Not compiled into normal builds.
 //
 // Every operator handler is wrapped at init so that an external harness can
@@ -46,6 +48,38 @@ type VerifToken struct {
 	Precedence uint
 	NumArgs    uint
 	Text       string
+	Post       bool   // CheckForPostTraverse
+	AssignType string // operation type of the assign variant (style=, tag=, ...), "" if none
+	Update     bool   // Operation.UpdateAssign
+}
+
+// VerifRawTokenise returns the lexer's tokens before post-processing.
+func VerifRawTokenise(expression string) ([]VerifToken, error) {
+	lx := newParticipleLexer().(*participleLexer)
+	myLexer, err := lx.lexerDefinition.LexString("", expression)
+	if err != nil {
+		return nil, err
+	}
+	out := make([]VerifToken, 0)
+	for {
+		rawToken, e := myLexer.Next()
+		if e != nil {
+			return nil, e
+		}
+		if rawToken.Type == lexer.EOF {
+			return out, nil
+		}
+		definition := lx.getYqDefinition(rawToken)
+		if definition.CreateYqToken != nil {
+			t, e := definition.CreateYqToken(rawToken)
+			if e != nil {
+				return nil, e
+			}
+			vt := verifProject(t)
+			vt.Text = rawToken.Value
+			out = append(out, vt)
+		}
+	}
 }
 
 func verifTokenKind(t *token) string {
@@ -65,15 +99,23 @@ func VerifTokenise(expression string) ([]VerifToken, error) {
 	}
 	out := make([]VerifToken, 0, len(tokens))
 	for _, t := range tokens {
-		vt := VerifToken{Kind: verifTokenKind(t), Text: t.Match}
-		if t.TokenType == operationToken && t.Operation != nil && t.Operation.OperationType != nil {
-			vt.OpType = t.Operation.OperationType.Type
-			vt.Precedence = t.Operation.OperationType.Precedence
-			vt.NumArgs = t.Operation.OperationType.NumArgs
-		}
-		out = append(out, vt)
+		out = append(out, verifProject(t))
 	}
 	return out, nil
+}
+
+func verifProject(t *token) VerifToken {
+	vt := VerifToken{Kind: verifTokenKind(t), Text: t.Match, Post: t.CheckForPostTraverse}
+	if t.TokenType == operationToken && t.Operation != nil && t.Operation.OperationType != nil {
+		vt.OpType = t.Operation.OperationType.Type
+		vt.Precedence = t.Operation.OperationType.Precedence
+		vt.NumArgs = t.Operation.OperationType.NumArgs
+		vt.Update = t.Operation.UpdateAssign
+	}
+	if t.AssignOperation != nil && t.AssignOperation.OperationType != nil {
+		vt.AssignType = t.AssignOperation.OperationType.Type
+	}
+	return vt
 }
 
 // VerifPostfix returns the operation types of the postfix form of an expression.
